@@ -175,6 +175,22 @@ def _exit_handover(ctx, rid, pat, list_field, handover, release):
         ok = all(not fn.event_reaches(x, y) for x in r for y in h)
         ctx.check(ok, rid, inst, "hand-over precedes release of the control block", "control block is released before the retired nodes are handed over",
                   fn.where(r[0]), fn=fn)
+        # the control block is released on EVERY path that holds one: the function exit is reached without passing the release only through the
+        # "there is no control block" edge
+        finfo = {}
+        removed, n_atoms = flow.licensed_edges(fn, flow.null_want(lambda f, x: flow.has_src(f, x, "field:control_block")), finfo)
+        rel_blocks = {fn.pos()[x][0] for x in r if x in fn.pos()}
+        exits = [b for b in fn.live_blocks() if not [s_ for s_ in fn.blocks[b]["succ"] if s_ is not None]]
+        leak = None
+        for xb in exits:
+            pth = flow._path(fn, fn.entry, xb, removed, rel_blocks)
+            if pth is not None:
+                leak = pth
+                break
+        ctx.check(leak is None, rid, pat + "#release-on-every-path-with-block", "every exit without release_entry is behind the 'no control block' edge",
+                  "the destructor can return without releasing the thread's control block although it holds one: the block stays 'active' for ever, is never "
+                  "adopted by a later thread, and the list every scan walks grows with the number of threads ever created", fn.where(r[0]), fn=fn,
+                  path=flow.describe_path(fn, leak) if leak else None)
 
 
 def _throws_only(ctx, rid, pat, exc):
@@ -1022,6 +1038,23 @@ def list_push_rules(ctx):
         adds = flow.find(fn, call("add_nodes"))
         if not adds:
             ctx.bad(rid_t, pat + "#hands-over", "the thread-local free list is not handed to the global free list at thread exit", fn.where(), fn=fn)
+            continue
+        # nodes on the global free list are in the *free* representation (claim bit set, no reference): a node that went through
+        # thread_local_free_list::pop() - which converts it to the allocated representation - must not be handed to add_nodes
+        rid_c = "LFRC.thread-exit"
+        conv = []
+        for a_ in adds:
+            for x in fn.kids(a_)[1:]:
+                for t in flow.srcs(fn, x):
+                    if t.startswith("call:"):
+                        for cf in [g for q, gs in ctx.facts.by_pat.items() if q.endswith("thread_local_free_list::" + t[5:]) for g in gs]:
+                            if any("ref_count" in at["field"] and at["kind"] in ("rmw", "store", "cas") for at in cf.atomics()):
+                                conv.append((a_, t[5:]))
+        ctx.check(not conv, rid_c, pat + "#handed-over-in-free-representation", "add_nodes receives nodes taken directly from the local list",
+                  "the nodes handed to the global free list were obtained through %s(), which rewrites ref_count (claim bit cleared, one reference): the next thread that "
+                  "pops such a node from the global list ends up with a stale claim bit, decrement_refcnt never reports the final release, the node is never destroyed and "
+                  "never returns to a free list" % (conv[0][1] if conv else ""), fn.where(conv[0][0]) if conv else fn.where(), fn=fn)
+        if conv:
             continue
         bad = None
         try:
